@@ -50,7 +50,7 @@ func gen(r *harn.Rng, tier string) interface{} {
 	for i := 0; i < nw; i++ {
 		w := writer{}
 		for j, n := 0, r.Range(1, 3); j < n; j++ {
-			w.Lens = append(w.Lens, r.Pick(4, 5, 16, 100, 1200))
+			w.Lens = append(w.Lens, r.Pick(4, 5, 16, 100, 1200, 1022, 2046))
 		}
 		sc.Writers = append(sc.Writers, w)
 	}
